@@ -140,10 +140,15 @@ func processInput(input string, p Parser, vm *vm.Type, doOut bool) {
 		}
 
 		ip := len(*vm.CR.CS)
+		var err error
 		if doOut {
-			ByteCode(e, vm.CR)
+			err = ByteCode(e, vm.CR)
 		} else {
-			ByteCodeNoStck(e, vm.CR)
+			err = ByteCodeNoStck(e, vm.CR)
+		}
+		if err != nil {
+			fmt.Printf("Compiler: %v\n", err)
+			continue
 		}
 
 		if *flags.ByteCodeFlag {
